@@ -1,5 +1,5 @@
 (* C18 — deck and published tables are complete and duplicate-free. *)
-From CKC Require Import Base.Prelude Base.Reflect Base.Combs Spec.Layout Model.Deck Proofs.CardFacts.
+From CKC Require Import Base.Prelude Base.Reflect Base.Combs Spec.Layout Model.Deck Proofs.CardBase.
 From CKC Require Import Gen.Consts Gen.Decks.
 Open Scope N_scope.
 
